@@ -844,6 +844,56 @@ def rule_anycode(ctx, rep, rid="R-C03-anycode"):
             r.ok(fn, "%s:%d" % (b.f["file"], b.f["line"]), "the code is only shown")
 
 
+LOCAL_RULES = {
+    "rule_unsupported_stdlib_type": "P0029: a variable of a standard function block type that is not implemented",
+    "rule_decl_struct_element_unique_names": "P0003: two elements of one structure with the same name",
+    "rule_decl_subrange_limits": "P0004: a subrange whose minimum is not below its maximum",
+    "rule_enumeration_values_unique": "P0005: a value twice in one enumeration",
+    "rule_var_decl_const_initialized": "P0016: a CONSTANT variable without an initial value",
+}
+
+
+def rule_local(ctx, rep, rid="R-C03-local"):
+    """The rules whose verdict on a declaration needs nothing but that declaration must stay that way: a table of *other* declarations in
+    the rule's visitor (the names of all function blocks, all types seen so far) is how "this file fails alone" turns into "this file passes
+    next to that one".  For each listed rule module: every structure it defines has no collection-typed field other than its list of
+    problems, and its `apply` builds no collection from the library before the walk."""
+    r = rep.rule(rid, "the declaration-local rules (P0003, P0004, P0005, P0016, P0029) keep no table of other declarations: their visitor has no collection-typed field besides "
+                      "the problems it gathers, and apply() gathers nothing from the library before the walk", floor=5, floor_what="declaration-local rule modules")
+    COLL = re.compile(r"\b(HashMap|HashSet|BTreeMap|BTreeSet|IndexMap|IndexSet|SymbolTable|VecDeque|Vec)\s*<")
+    for mod, what in sorted(LOCAL_RULES.items()):
+        adts = [a for a in ctx.facts.adts.values() if a["crate"] == "ironplc_analyzer" and a["file"].endswith("/%s.rs" % mod)]
+        bodies = [b for b in ctx.prog.bodies.values() if b.f["crate"] == "ironplc_analyzer" and b.f["file"].endswith("/%s.rs" % mod) and "::test" not in norm(b.id)]
+        if not bodies:
+            r.finding("%s|missing" % mod, None, "rule module not found (anchor moved)")
+            continue
+        bad = []
+        for a in adts:
+            if "test" in a["id"]:
+                continue
+            for v in a["variants"]:
+                for fl in v["fields"]:
+                    ty = fl["ty"]
+                    for m in COLL.finditer(ty):
+                        inner = ty[m.end():]
+                        if m.group(1) == "Vec" and inner.lstrip().startswith("ironplc_dsl::diagnostic::Diagnostic"):
+                            continue
+                        bad.append("%s.%s: %s" % (a["id"].split("::")[-1], fl["name"], ty[:80]))
+        ap = [b for b in bodies if b.f["name"] == "apply" and b.f.get("dk") != "Closure"]
+        for b in ap:
+            for c in b.calls():
+                if (c.callee or c.u or "").endswith("Iterator::collect") or (c.callee or "").split("::")[-1] in ("insert", "extend", "push") and "Diagnostic" not in (c.ga or ""):
+                    ty = b.local_ty(c.dest[0]) or ""
+                    if (c.callee or c.u or "").endswith("Iterator::collect") and "Diagnostic" in ty:
+                        continue
+                    bad.append("apply gathers a collection (%s)" % (c.callee or c.u or "?").split("::")[-1])
+        where = "%s:%d" % (bodies[0].f["file"], min(b.f["line"] for b in bodies))
+        if bad:
+            r.finding("%s|keeps a table" % mod, where, "%s is decided on one declaration alone, but the rule keeps %s: what else is in the set can then change (or hide) the verdict" % (what, "; ".join(sorted(set(bad)))))
+        else:
+            r.ok(mod, where, what + " - no table of other declarations")
+
+
 def run(ctx, rep):
     rep.not_decided += ["that every companion-independent semantic rule still fires in the presence of arbitrary other declarations (value-level)",
                         "'adding files may cure undeclared errors' monotonicity"]
@@ -857,6 +907,7 @@ def run(ctx, rep):
     from rules import c03_allwalks
     c03_allwalks.run(ctx, rep)
     rule_grow(ctx, rep)
+    rule_local(ctx, rep)
     # a file that is named is in the set: push cannot say Ok for a file it did not add
     from rules.c13 import rule_pushadds
     rule_pushadds(ctx, rep, rid="R-C03-pushadds")
